@@ -217,12 +217,10 @@ impl DebugInformation {
             ecx.location().global_pc.into(),
             EhFrame::cie_from_offset,
         )?;
-        self.evaluate_cfa(
-            debugee,
-            &DwarfRegisterMap::from(RegisterMap::current(ecx.pid_on_focus())?),
-            row,
-            ecx,
-        )
+        let mut registers = DwarfRegisterMap::from(RegisterMap::current(ecx.pid_on_focus())?);
+        // CFA rule refers to the registers of the frame in focus
+        debugee.restore_registers_at_frame(ecx.pid_on_focus(), &mut registers, ecx.frame_num())?;
+        self.evaluate_cfa(debugee, &registers, row, ecx)
     }
 
     pub fn debug_addr(&self) -> &DebugAddr<EndianArcSlice> {
